@@ -17,17 +17,23 @@ ALL = ["DTLZ1", "DTLZ2", "DTLZ3", "DTLZ4", "DTLZ7"] + [f"WFG{i}" for i in range(
 TOL = 1e-9
 
 
+def _mk(cls, *a, **k):
+    p = cls(*a, **k)
+    p._ctor = (a, k)           # how to build another instance of the same problem
+    return p
+
+
 def instances(name, rng, quick):
     cls = getattr(P, name)
     if name.startswith("DTLZ") or name.startswith("WFG"):
         extra = {"DTLZ2": [(3, 5), (2, 4), (3, 2)], "DTLZ3": [(2, 4), (3, 2)]}.get(name, [])
-        return [cls(m) for m in ((2, 3) if quick else (2, 3, 4, 5))] + [cls(m, n) for m, n in extra]
+        return [_mk(cls, m) for m in ((2, 3) if quick else (2, 3, 4, 5))] + [_mk(cls, m, n) for m, n in extra]
     # default size, plus other numbers of variables (odd and even): the CEC 2009 index sets J1 / J2 / J3 depend on the parity
     import inspect
     if "nvars" in inspect.signature(cls.__init__).parameters:
         dflt = cls().nvars
-        return [cls()] + [cls(nvars=n_) for n_ in sorted({5, 6, 7, 11, dflt + 1} - {dflt})][: (2 if quick else 5)]
-    return [cls()]
+        return [_mk(cls)] + [_mk(cls, nvars=n_) for n_ in sorted({5, 6, 7, 11, dflt + 1} - {dflt})][: (2 if quick else 5)]
+    return [_mk(cls)]
 
 
 def points(p, rng, n):
@@ -99,11 +105,16 @@ def close(a, b):
     return a == b or abs(a - b) <= TOL * max(1.0, abs(a), abs(b))
 
 
+def _r_again(name, nobjs, nvars):
+    import random as _random
+    return _random.Random(f"{name}-{nobjs}-{nvars}")
+
+
 def run(ctx, drv):
     rng = ctx.rng
     ctx.nontrivial_rule = ("all 43 problem classes x supported numbers of objectives (DTLZ / WFG: 2-3 quick, 2-5 thorough) x in-bounds decision "
                            "vectors (random, up to 64 corners, boundary and special values 0, .25, .35, .5, .75, 1 of every range); samplers: "
-                           "40 draws per instance. non-trivial = not all variables at a bound; distinct by (class, vector) + non-default numbers of variables for UF / CF / ZDT, Solution objects re-used for several points, FixedLengthArray slice assignment against its model")
+                           "40 draws per instance. non-trivial = not all variables at a bound; distinct by (class, vector) + non-default numbers of variables for UF / CF / ZDT, Solution objects re-used for several points, FixedLengthArray slice assignment against its model; every class: the same vectors again later on the same problem object and on a fresh instance")
     reqs, post = [], []
 
     def ask(line, fn):
@@ -147,6 +158,11 @@ def run(ctx, drv):
                         else ctx.disagree("ZDT5 reference implementation", inp, objs, g))
                 elif name.startswith("UF") and int(name[2:]) <= 10:
                     ask(f"uf {name[2:]} {wlist(x, wf)}", lambda g, objs=objs, inp=inp, name=name: cmp_ref(ctx, g, objs, inp, name))
+                elif name in ("UF11", "UF12"):   # CEC 2009 rotated DTLZ2 / DTLZ3; the rotation tables are data
+                    cls_ = type(p)
+                    ask(f"ufrot {int(name == 'UF12')} {p.nobjs} {len(cls_.M)} " + " ".join(wlist([float(v) for v in row], wf) for row in cls_.M)
+                        + " " + wlist([float(v) for v in cls_.LAM], wf) + " " + wlist(x, wf),
+                        lambda g, objs=objs, inp=inp, name=name: cmp_ref(ctx, g, objs, inp, name))
                 elif name == "UF13":          # CEC 2009: WFG1 with 5 objectives, k = 8, l = 22
                     ask(f"wfg 1 8 5 {wlist(x, wf)}", lambda g, objs=objs, inp=inp, name=name: cmp_ref(ctx, g, objs, inp, name))
                 elif name.startswith("CF"):
@@ -158,6 +174,35 @@ def run(ctx, drv):
                 interior = not all(v in (t.min_value, t.max_value) for v, t in zip(x, p.types) if isinstance(t, platypus.Real)) if not isinstance(x[0], list) else True
                 ctx.case((desc, repr(x)), interior, dict(inp, objectives=objs) if len(ctx.samples) < 3 and name in ("DTLZ2", "WFG4", "CF1") and interior else None)
             ctx.count("points_" + name[:3])
+            # ---------------- evaluation is a function of the decision vector: the first vectors again, on this problem object
+            # (which has evaluated many others since) and on a freshly constructed instance of the same class
+            pts_again = points(p, _r_again(name, p.nobjs, p.nvars), 3)
+            try:
+                fresh_p = type(p)(*p._ctor[0], **p._ctor[1])
+            except Exception:
+                fresh_p = None
+            first_vals = []
+            for x in pts_again:
+                s1 = C.Solution(p); s1.variables[:] = x
+                r1 = call(s1.evaluate)
+                first_vals.append(None if isinstance(r1, str) else (list(s1.objectives), list(s1.constraints)))
+            for x in points(p, rng, 5):              # other work in between
+                s_ = C.Solution(p); s_.variables[:] = x
+                call(s_.evaluate)
+            for x, v1 in zip(pts_again, first_vals):
+                if v1 is None:
+                    continue
+                for tag, prob in (("same problem object, later", p), ("fresh instance", fresh_p)):
+                    if prob is None:
+                        continue
+                    s2 = C.Solution(prob); s2.variables[:] = x
+                    r2 = call(s2.evaluate)
+                    v2 = None if isinstance(r2, str) else (list(s2.objectives), list(s2.constraints))
+                    if v2 != v1:
+                        ctx.fail("evaluation-depends-on-history", {"problem": desc, "variables": x if not isinstance(x[0], list) else [wbits(v) for v in x], "second_evaluation_on": tag},
+                                 v2, v1, f"problems.{name}.evaluate")
+                        break
+            ctx.count("repeat_evaluations", 6)
             # ---------------- Pareto samplers
             if hasattr(p, "random") and (name.startswith("DTLZ") or name.startswith("WFG")):
                 import random as _random
